@@ -31,15 +31,67 @@ def gen_tree_faults(rng, tier):
     """valid documents and EVERY fault kind on each of them (model: bind.parse, real: NodeParser
     driven by EventsHandler)"""
     n_uni = n_cases(tier, 20, 120)
-    docs = itertools.chain(documents(rng, tier, n_uni, 2, mutate=False), focused_documents(rng, n_cases(tier, 15, 100), 2))
+    docs = itertools.chain(documents(rng, tier, n_uni, 2, mutate=False), focused_documents(rng, n_cases(tier, 24, 160), 2))
+    yield from gen_union_exhaustive(rng, tier)
     for u, ctx, desc, tree, kind in docs:
         cfgs = [rng.choice(CONFIGS) for _ in range(3)]
         yield {"ctx": ctx, "tree": tree, "clazz": "Root", "config": cfgs[0], "desc": desc, "_uni": u.modname, "_kind": "valid"}
         for k, t2 in F.tree_fault_stream(rng, tree, 1 if tier == "quick" else 2):
             yield {"ctx": ctx, "tree": t2, "clazz": "Root", "config": rng.choice(cfgs), "desc": desc, "_uni": u.modname, "_kind": k}
+        probe = {"ctx": ctx, "tree": tree}
+        if _union_elements(probe):
+            for k, t2 in F.union_fault_stream(rng, tree, _UNION_QNAMES[id(ctx)], 2 if tier == "quick" else 5):
+                yield {"ctx": ctx, "tree": t2, "clazz": "Root", "config": rng.choice(cfgs), "desc": desc, "_uni": u.modname, "_kind": k}
         # the wrong target class for a valid document
         other = rng.choice([c["name"] for c in desc["classes"]])
         yield {"ctx": ctx, "tree": tree, "clazz": other, "config": cfgs[1], "desc": desc, "_uni": u.modname, "_kind": "wrong_class"}
+
+
+def gen_union_exhaustive(rng, tier):
+    """bounded-exhaustive: a two-class universe with one union field, every order of its candidates
+    (class Item, int, str, bool), and every document of a small grammar below the union element:
+    text x attributes x children (each member absent / well typed / mistyped, an unknown child)"""
+    import itertools as it
+
+    members = [{"cls": "Item"}, "int", "str", "bool"]
+    perms = [list(p) for r in (2, 3, 4) for p in it.permutations(members, r) if {"cls": "Item"} in p]
+    if tier == "quick":
+        perms = rng.sample(perms, 4)
+    texts = [None, "", "12", "true", "abc", " 7 "]
+    attr_sets = [[], [["zzz", "v"]], [["k", "fix"]], [["k", "other"]], [["{http://www.w3.org/2001/XMLSchema-instance}type", "zz:T"]]]
+    child_opts = {
+        "y": [None, "a"],
+        "n": [None, "7", "x", "<nested>"],
+        "u": [None, "1"],
+    }
+    for perm in perms:
+        desc = {"classes": [
+            {"name": "Item", "fields": [
+                {"name": "y", "type": {"opt": "str"}, "metadata": {"type": "Element"}, "default": {"value": None}},
+                {"name": "n", "type": {"opt": "int"}, "metadata": {"type": "Element"}, "default": {"value": None}},
+                {"name": "k", "type": "str", "metadata": {"type": "Attribute"}, "default": {"value": "fix"}, "init": False}]},
+            {"name": "Root", "fields": [
+                {"name": "m", "type": {"opt": {"union": perm}}, "metadata": {"type": "Element"}, "default": {"value": None}}]}]}
+        try:
+            u = B.Universe(desc)
+            ctx = u.export_ctx()
+        except Exception:  # noqa: BLE001
+            continue
+        _UNIS[u.modname] = u
+        combos = list(it.product(texts, attr_sets, child_opts["y"], child_opts["n"], child_opts["u"]))
+        if tier == "quick":
+            combos = rng.sample(combos, 40)
+        for text, attrs, y, n, un in combos:
+            kids = []
+            for q, v in (("y", y), ("n", n), ("unknownEl", un)):
+                if v == "<nested>":  # a child below a primitive member: XmlContextError inside the trial
+                    kids.append({"q": q, "a": [], "ns": [], "t": "7", "tl": None,
+                                 "c": [{"q": "deep", "a": [], "ns": [], "t": None, "c": [], "tl": None}]})
+                elif v is not None:
+                    kids.append({"q": q, "a": [], "ns": [], "t": v, "c": [], "tl": None})
+            tree = {"q": "Root", "a": [], "ns": [], "t": None, "tl": None,
+                    "c": [{"q": "m", "a": [list(kv) for kv in attrs], "ns": [], "t": text, "c": kids, "tl": None}]}
+            yield {"ctx": ctx, "tree": tree, "clazz": "Root", "config": rng.choice(CONFIGS), "desc": desc, "_uni": u.modname, "_kind": "exh"}
 
 
 FOCUS = [
@@ -48,6 +100,9 @@ FOCUS = [
     {"text", "attr", "attributes", "tokens", "fixed", "qname", "ns", "nillable"},        # simple content
     {"child", "wrapper", "list", "elem", "sequence", "compound", "ns"},                  # wrappers, sequences, compound fields
     {"child", "wildcard", "mixed", "elem", "list", "ns"},                                # mixed content
+    {"union", "child", "elem", "attr", "list", "nillable", "ns", "fixed"},              # UnionNode: class|class, class|primitive
+    {"union", "child", "elem", "attr", "inherit", "qname", "text", "ns"},               # … with subclasses (xsi:type) and simple content classes
+    {"union", "child", "wildcard", "mixed", "list", "anytype", "ns"},                   # … next to wildcards / in mixed content
 ]
 
 
@@ -55,7 +110,7 @@ def focused_documents(rng, n_uni, per_uni):
     """documents of universes restricted to a few field kinds, so that rare combinations
     (a class child next to a wildcard, …) are met on every run"""
     for i in range(n_uni):
-        u, desc, ctx = new_universe(rng, FOCUS[i % len(FOCUS)])
+        u, desc, ctx = new_universe(rng, FOCUS[i % len(FOCUS)] if i % 2 == 0 else FOCUS[5 + (i // 2) % 3])
         for _ in range(per_uni):
             try:
                 obj = G.gen_instance(rng, u, "Root")
@@ -76,6 +131,53 @@ def cmp_tree(mo, io, a):
     if ("ok" in mo) != ("ok" in io) or mo.get("err") != io.get("err"):
         return False
     return mo == F.real_parse_tree_per_ns(uni_of(a), a["clazz"], a["tree"], a["config"])
+
+
+def _union_elements(a):
+    """how many elements of the document are bound through a UnionNode (qname of a union var)"""
+    key = id(a.get("ctx"))
+    if key not in _UNION_QNAMES:
+        qs = set()
+        for c in (a.get("ctx") or {}).get("classes", []):
+            for _, m in c["metas"]:
+                for _, vs in m["elements"]:
+                    qs.update(v["qname"] for v in vs if v.get("is_clazz_union"))
+        _UNION_QNAMES[key] = qs
+    qs = _UNION_QNAMES[key]
+    if not qs or "tree" not in a:
+        return 0
+    n, todo = 0, [a["tree"]]
+    while todo:
+        t = todo.pop()
+        n += t["q"] in qs
+        todo.extend(t["c"])
+    return n
+
+
+_UNION_QNAMES: dict = {}
+
+
+def classify_tree(a, o):
+    """fault kind : outcome, with the number of union-bound elements of the document"""
+    u = _union_elements(a)
+    return ("union%s/" % ("1" if u == 1 else "2+") if u else "") + classify_outcome(a, o)
+
+
+def impl_parse_capped(a):
+    """NodeParser(EventsHandler) on the real code, under the per-case time cap (a parser that does not
+    come back is an outcome of its own, never a hung check)"""
+    # once a few cases ran into the cap the remaining ones get a short one: the check reports the
+    # hang either way and must itself stay bounded
+    cap = F.CAP_S if _HANGS[0] < 3 else 0.5
+    try:
+        with F.time_cap(cap):
+            return impl_parse(a)
+    except F.Hang:
+        _HANGS[0] += 1
+        return {"err": "HANG"}
+
+
+_HANGS = [0]
 
 
 def classify_outcome(a, o):
@@ -162,8 +264,6 @@ def cmp_doc_lxml(mo, io, a):
     if unsupported(mo):
         return True
     if a["tok"] == "syntax":
-        if io.get("err") == "LEAK:UnicodeDecodeError" and F.has_surrogate_charref(bytes.fromhex(a["hex"])):
-            return True  # known finding C15-lxml-surrogate-charref
         return "ok" in io or io.get("err") in DOCUMENTED
     return mo == io
 
@@ -317,13 +417,69 @@ def cmp_dict(mo, io, a):
     return mo == io
 
 
+# =============================================================================== (ii'') xinclude, both handlers
+XI_FEATURES = {"attr", "elem", "child", "list", "text", "nillable", "wrapper", "sequence", "ns", "tokens", "fixed"}  # no "inherit": xsi:type="ns0:Sub" is prefixed content
+
+
+def gen_doc_xinclude(rng, tier):
+    """process_xinclude=True: one element of a real serialization is cut out into a file of its own
+    and included back.  Inclusion must be transparent (model outcome on the expanded tree, computed
+    by libxml2's XInclude) and every way of breaking the inclusion must end in a documented error.
+    Universes without QName-typed or prefixed content: the pure-Python path (ElementTree) does not
+    keep the document's prefixes (C09/C11)."""
+    n_uni = n_cases(tier, 10, 80)
+    for _ in range(n_uni):
+        u, desc, ctx = new_universe(rng, XI_FEATURES)
+        for _ in range(2):
+            try:
+                obj = G.gen_instance(rng, u, "Root")
+                xml = G.real_serialize(u, obj, writer="lxml", xml_declaration=False).encode()
+                split = F.xinclude_split(rng, xml)
+            except Exception:  # noqa: BLE001
+                continue
+            if split is None:
+                continue
+            main, files = split
+            cfg = rng.choice(CONFIGS)
+            for k, m2, f2, expect in F.xinclude_fault_stream(rng, main, files):
+                if expect is None:
+                    t = F.expanded_tree(m2, f2)
+                    tok = {"tree": t} if t is not None else "include"
+                else:
+                    tok = expect
+                for handler in ("native", "lxml"):
+                    if handler == "lxml" and isinstance(expect, dict) and "raised" in expect:
+                        # the codec callback is pyexpat's; libxml2 knows (or refuses) the encoding itself
+                        t = F.expanded_tree(m2, f2)
+                        tok = {"tree": t} if t is not None else "include"
+                    yield {"ctx": ctx if isinstance(tok, dict) and "tree" in tok else F.EMPTY_CTX, "tok": tok, "clazz": "Root", "config": cfg,
+                           "hex": m2.hex(), "files": {n: b.hex() for n, b in f2.items()}, "handler": handler,
+                           "desc": desc, "_uni": u.modname, "_kind": handler + "/" + k}
+
+
+def impl_doc_xinclude(a):
+    return F.real_xinclude(uni_of(a), a["clazz"], bytes.fromhex(a["hex"]), {n: bytes.fromhex(h) for n, h in a["files"].items()},
+                           a["handler"], a["config"])
+
+
+def cmp_doc_xinclude(mo, io, a):
+    if unsupported(mo):
+        return True
+    if not (isinstance(a["tok"], dict) and "tree" in a["tok"]):
+        # a broken inclusion / part: any documented error (which one comes first is the tokenizer's business)
+        return "err" in io and io["err"] in DOCUMENTED
+    return mo == io
+
+
 CORRS = [
-    Corr("bind.parse", gen_tree_faults, impl_parse, compare=cmp_tree, classify=classify_outcome,
-         describe="NodeParser(EventsHandler) vs model on valid documents and every tree-level fault kind"),
+    Corr("bind.parse_u", gen_tree_faults, impl_parse_capped, compare=cmp_tree, classify=classify_tree,
+         describe="NodeParser(EventsHandler) vs model (parseRootU: Element/Primitive/Standard/Wildcard/Skip/Wrapper/Union nodes) on valid documents and every tree-level fault kind"),
     Corr("fault.document", gen_doc_native, impl_doc_native, compare=cmp_doc, classify=classify_outcome,
          describe="XmlParser(XmlEventHandler).from_bytes vs model(parseDocument) on byte-level faults; tokenizer outcome from libxml2 strict"),
     Corr("fault.document.lxml", gen_doc_lxml, impl_doc_lxml, compare=cmp_doc_lxml, classify=classify_outcome,
          describe="XmlParser(LxmlEventHandler).from_bytes on byte-level faults: model outcome on well-formed input, no leak otherwise"),
+    Corr("fault.document.xinclude", gen_doc_xinclude, impl_doc_xinclude, compare=cmp_doc_xinclude, classify=classify_outcome,
+         describe="XmlParser(process_xinclude=True) with both handlers: inclusion is transparent (model outcome on the expanded tree), broken inclusions end in documented errors"),
     Corr("dict.decode", gen_dict, impl_dict, compare=cmp_dict, classify=classify_outcome,
          describe="DictDecoder.decode / JsonParser.from_bytes outcome class vs model on value-level and byte-level JSON faults"),
 ]
@@ -352,11 +508,12 @@ def _is_instance_val(u, v, clazz):
 
 def check_tree(a):
     u = uni_of(a)
-    with F.time_cap(F.CAP_S) as cap:
+    with F.time_cap(F.CAP_S if _HANGS[0] < 3 else 0.5) as cap:
         try:
             r = B.real_parse_tree(u, a["clazz"], a["tree"], a.get("config", {}))
         except F.Hang:
-            return "NodeParser did not return within %.0f s" % F.CAP_S
+            _HANGS[0] += 1
+            return "NodeParser did not return within %.1f s" % cap.seconds
     if "ok" in r:
         if not _is_instance_val(u, r["ok"]["value"], a["clazz"]):
             return "NodeParser returned something that is not an instance of the requested class: %s" % json.dumps(r["ok"]["value"])[:120]
@@ -390,8 +547,6 @@ def check_xml_bytes(a):
 
 def covered_xml(a, msg):
     data = bytes.fromhex(a["hex"])
-    if msg.startswith("lxml: LEAK:UnicodeDecodeError") and F.has_surrogate_charref(data):
-        return "C15-lxml-surrogate-charref"
     if msg.startswith("native: XmlEventHandler accepted") and F.libxml2_reading(data)[2]:
         return "C15-xml-version-number"
     return None
@@ -481,10 +636,130 @@ def gen_oracle_json(rng, tier):
                 yield {**base, "hex": b.hex(), "_kind": k}
 
 
+def gen_oracle_union(rng, tier):
+    yield from gen_union_exhaustive(rng, tier)
+
+
+def _own_score(obj):
+    """score_object re-stated: None -1; a model: per field str 1, other non-None 1.5; else str 1 / 1.5"""
+    import dataclasses
+
+    def one(v):
+        return 1.0 if isinstance(v, str) else (0.0 if v is None else 1.5)
+
+    if obj is None:
+        return -1.0
+    if dataclasses.is_dataclass(obj):
+        return sum(one(getattr(obj, f.name)) for f in dataclasses.fields(obj))
+    return one(obj)
+
+
+def check_union_choice(a):
+    """`union_picks_best_score` on the real code: the value bound to a union field is the FIRST of the
+    candidates' own results with maximal score (each candidate tried on its own by a fresh strict
+    parser / converter; candidates that the attributes rule out skipped); ParserError iff none."""
+    from xsdata.exceptions import ParserError
+    from xsdata.formats.converter import converter
+    from xsdata.formats.dataclass.context import XmlContext
+    from xsdata.formats.dataclass.parsers.bases import NodeParser
+    from xsdata.formats.dataclass.parsers.config import ParserConfig
+    from xsdata.formats.dataclass.parsers.mixins import EventsHandler
+
+    u = uni_of(a)
+    Root, Item = u.classes["Root"], u.classes["Item"]
+    el = a["tree"]["c"][0]
+    # the candidates in the order of the exported metadata (`XmlVar.types`; the builder sorts them)
+    var = next(v for vs in XmlContext(models_package=u.modname).build(Root).elements.values() for v in vs)
+    perm = [{"cls": "Item"} if t is Item else t.__name__ for t in var.types]
+    attrs = {k: v for k, v in el["a"]}
+    strict = ParserConfig(**{**a.get("config", {}), "fail_on_converter_warnings": True})
+    results = []
+    for cand in perm:
+        res = None
+        if isinstance(cand, dict):
+            if "k" in attrs and attrs["k"].strip() != "fix":
+                continue  # fixed attribute mismatch rules the class out
+            try:
+                res = NodeParser(context=XmlContext(models_package=u.modname), config=strict, handler=EventsHandler).parse(B.tree_events(el), Item)
+            except Exception:  # noqa: BLE001
+                res = None
+        else:
+            if attrs:
+                continue  # a primitive cannot carry attributes
+            tp = {"int": int, "str": str, "bool": bool}[cand]
+            try:
+                res = None if el["t"] is None else converter.deserialize(el["t"], [tp])
+            except Exception:  # noqa: BLE001
+                res = None
+        results.append(res)
+    best, best_score = None, -1.0
+    for r in results:
+        if _own_score(r) > best_score:
+            best, best_score = r, _own_score(r)
+    try:
+        with F.time_cap(F.CAP_S):
+            got = NodeParser(context=XmlContext(models_package=u.modname), config=ParserConfig(**a.get("config", {})), handler=EventsHandler).parse(
+                B.tree_events(a["tree"]), Root)
+    except F.Hang:
+        return "UnionNode did not return within %.0f s" % F.CAP_S
+    except ParserError:
+        return None if best is None else f"union field rejected although candidate result {best!r} exists"
+    except Exception as e:  # noqa: BLE001
+        return f"{type(e).__name__} escaped from a document with a union field"
+    if best is None:
+        return f"union field bound {got.m!r} although every candidate fails"
+    if type(got.m) is not type(best) or got.m != best:
+        return f"union field bound {got.m!r}, the first best-scoring candidate result is {best!r} (results {results!r})"
+    return None
+
+
+def gen_oracle_xinclude(rng, tier):
+    for a in gen_doc_xinclude(rng, tier):
+        yield {k: a[k] for k in ("hex", "files", "handler", "clazz", "config", "desc", "_uni", "_kind")}
+
+
+def check_xinclude(a):
+    """process_xinclude: an instance or a documented error; and an intact inclusion is transparent —
+    the same handler gives the same object for the expanded document parsed without xinclude"""
+    u = uni_of(a)
+    main = bytes.fromhex(a["hex"])
+    files = {n: bytes.fromhex(h) for n, h in a["files"].items()}
+    r = F.real_xinclude(u, a["clazz"], main, files, a["handler"], a.get("config", {}))
+    if "ok" in r:
+        if not _is_instance_val(u, r["ok"]["value"], a["clazz"]):
+            return f"{a['handler']}: xinclude result is not an instance of the requested class"
+    elif r["err"] == "HANG":
+        return f"{a['handler']}: no answer within {F.CAP_S:.0f} s"
+    elif r["err"] not in DOCUMENTED:
+        return f"{a['handler']}: {r['err']} escaped from XmlParser(process_xinclude=True).from_bytes"
+    if a.get("_kind", "").endswith("/valid"):
+        from lxml import etree
+        import os, shutil, tempfile
+
+        d = tempfile.mkdtemp(prefix="c15xo")
+        try:
+            for k, v in files.items():
+                open(os.path.join(d, k), "wb").write(v)
+            mp = os.path.join(d, "main.xml")
+            open(mp, "wb").write(main)
+            tree = etree.parse(mp)
+            tree.xinclude()
+            flat = etree.tostring(tree)
+        finally:
+            shutil.rmtree(d, ignore_errors=True)
+        r2 = F.real_xml_bytes(u, a["clazz"], flat, a["handler"], a.get("config", {}))
+        if r != r2:
+            return f"{a['handler']}: the included document parses to something else than the expanded one: {json.dumps(r)[:80]} vs {json.dumps(r2)[:80]}"
+    return None
+
+
 ORACLES = [
-    Oracle("c15.tree", gen_oracle_tree, check_tree, from_ops=("bind.parse",)),
+    Oracle("c15.tree", gen_oracle_tree, check_tree, from_ops=("bind.parse_u",)),
     Oracle("c15.xml_bytes", gen_oracle_xml, check_xml_bytes, covered=covered_xml,
            from_ops=("fault.document", "fault.document.lxml"), adapt=adapt_xml),
+    Oracle("c15.union_choice", gen_oracle_union, check_union_choice),
+    Oracle("c15.xinclude", gen_oracle_xinclude, check_xinclude, from_ops=("fault.document.xinclude",),
+           adapt=lambda op, a: {k: a[k] for k in ("hex", "files", "handler", "clazz", "config", "desc", "_uni", "_kind")}),
     Oracle("c15.json", gen_oracle_json, check_json, from_ops=("dict.decode",),
            adapt=lambda op, a: {k: a[k] for k in ("hex", "json", "clazz", "config", "list_of", "desc", "_uni", "_kind", "ctx", "loaded", "fuel") if k in a}),
 ]
@@ -536,17 +811,8 @@ def _xml_version_finding():
     return isinstance(r, Doc), "accepted: " + repr(r)[:60]
 
 
-def _lxml_surrogate_finding():
-    from xsdata.formats.dataclass.parsers import XmlParser
-    from xsdata.formats.dataclass.parsers.handlers import LxmlEventHandler
-
-    Doc = _mini()
-    return _raises(lambda: XmlParser(handler=LxmlEventHandler).from_bytes(b"<Doc><x>1&#xD800;</x></Doc>", Doc), "UnicodeDecodeError")
-
-
 FINDINGS = {
     "C15-xml-version-number": _xml_version_finding,
-    "C15-lxml-surrogate-charref": _lxml_surrogate_finding,
 }
 
 TRUSTED = [
@@ -561,16 +827,17 @@ ASSUMPTIONS = [
     "a DerivedElement wrapper around an instance of the requested class counts as an instance (documented behaviour for xsi:type / derived JSON documents)",
 ]
 LEVEL_TEXT = (
-    "Lean theorem over every element tree, every class universe (arbitrary metadata), every parser config: the tree-level parser "
-    "(NodeParser + Element/Primitive/Standard/Wildcard/Skip/Wrapper nodes + ParserUtils) ends in a value, ParserError, ConverterError or "
-    "XmlContextError (or leaves the modelled fragment), never in another exception type; the byte-level entry point adds the "
-    "SyntaxError->ParserError and codec-error->ParserError translations and is proved leak-free for every tokenizer outcome (no_leak_document). "
-    "Tied to /repo by a differential check on every tree-level fault kind and on byte-level faults (truncation at each offset, flips, "
-    "deletions, undeclared prefixes, wrong root, encodings, random bytes) for both handlers; the JSON/dict decoder model is proved leak-free "
-    "for every loaded value and every json.load outcome (no_leak_dict, no_leak_json) and tied to /repo by value-level and byte-level fault "
-    "enumeration. Two tokenizer-level behaviours (expat version numbers, lxml surrogate references) stay listed as known findings."
+    "Lean theorems over every element tree, every class universe (arbitrary metadata), every parser config: the tree-level parser "
+    "(NodeParser + Element/Primitive/Standard/Wildcard/Skip/Wrapper/Union nodes + ParserUtils) ends in a value, ParserError, ConverterError or "
+    "XmlContextError, never in another exception type (no_leak_parse_union; the union-aware model is proved a conservative extension of the one "
+    "the other properties use, union_model_extends_parse, and UnionNode's choice is characterised: union_picks_best_score); the byte-level entry "
+    "point is proved leak-free for every tokenizer outcome of both handlers incl. the xinclude path (no_leak_document); the JSON/dict decoder "
+    "model is proved leak-free for every loaded value and every json.load outcome (no_leak_dict, no_leak_json). Tied to /repo by differential "
+    "checks on every tree-level fault kind (union-targeted faults and a bounded-exhaustive union section included), byte-level faults for both "
+    "handlers, xinclude splits of real documents, and value/byte-level JSON faults. One tokenizer-level behaviour (expat does not check the "
+    "version number) stays listed as a known finding."
 )
 LEVEL_NOTE = (
-    "Trusted: Lean kernel; expat/libxml2 (outcome taken as input); the sampling correspondence. Not covered by proof: UnionNode, "
-    "the JSON decoder beyond its outcome model, xinclude, file/path sources."
+    "Trusted: Lean kernel; expat/libxml2 (their outcome on a byte string is an input of the model); the sampling correspondence. Not covered: "
+    "values of the JSON decoder (outcome classes only), I/O failures of file/path sources and of xinclude targets (OSError passes through)."
 )
